@@ -28,7 +28,7 @@ def main():
                       kind_free_text='extractor (vlib/cxx2c.py) + goto-cc + goto-instrument --dfcc --enforce-contract + cbmc; native ASan/UBSan replay of counterexamples')],
         checks=checks,
         not_applicable=na,
-        notes='Exit 0 = all obligations discharged; exit 1 = VIOLATION lines; exit 2 = undecided (timeout / tool or extraction failure), never reported as a violation. See DESIGN.md.',
+        notes='Exit 0 = all obligations discharged; exit 1 = VIOLATION lines; exit 2 = undecided (timeout / tool or extraction failure), never reported as a violation. In the thorough tier a job that exhausts its time budget (at most one hour) is printed as NOT-DECIDED, listed under undecided in the evidence, and does not change the exit status. See DESIGN.md.',
     )
     with open(os.path.join(tu.VERIF, 'MANIFEST.json'), 'w') as f:
         json.dump(man, f, indent=1)
